@@ -95,6 +95,7 @@ MAP_CODES = {
     "some": ("{ SOME }", lambda t, v: (T("option", t), ("Some", v)), lambda t: True),
     "dup": ("{ DUP ; PAIR }", lambda t, v: (T("pair", t, t), (v, v)), lambda t: True),
     "id": ("{ }", lambda t, v: (t, v), lambda t: True),
+    "peek": ("{ DROP ; DUP }", None, lambda t: True),  # looks at what lies below the mapped field (see reference())
 }
 DIP_CODES = {
     "push": ("{ PUSH int 7 }", lambda s: [(INT, 7)] + s, lambda s: True),
@@ -174,7 +175,12 @@ def reference(case):
         return [path_set(s[0][0], s[0][1], case["path"], s[1][0], s[1][1])] + s[2:]
     if k == "MAP":
         t, v = path_get(s[0][0], s[0][1], case["path"])
-        nt, nv = MAP_CODES[case["code"]][1](t, v)
+        if case["code"] == "peek":
+            # MAP_CDR code = { DUP ; CDR ; code ; SWAP ; CAR ; PAIR }: the body runs with the enclosing pair right below its
+            # argument; MAP_CAR code = { DUP ; CDR ; DIP { CAR ; code } ; SWAP ; PAIR }: with the caller's stack below it
+            nt, nv = path_get(s[0][0], s[0][1], case["path"][:-1]) if case["path"][-1] == "D" else s[1]
+        else:
+            nt, nv = MAP_CODES[case["code"]][1](t, v)
         return [path_set(s[0][0], s[0][1], case["path"], nt, nv)] + s[1:]
     raise ValueError(k)
 
@@ -358,6 +364,8 @@ def spec_strategy(spec):
                 annots = draw(st.sampled_from([["%f"], ["@v"], ["%f", "@v"]]))
         elif k == "MAP":
             stack = [draw(_path_value(spec["path"]))]
+            if not below:
+                below = [draw(_leaf())]
             lt, _ = path_get(stack[0][0], stack[0][1], spec["path"])
             okc = [c for c, (_, _, pre) in sorted(MAP_CODES.items()) if pre(lt)]
             case["code"] = draw(st.sampled_from(okc))
